@@ -34,8 +34,14 @@ def inv_of(positions):
     return inv
 
 
-def pick_dates(rng, txn_dates):
+def pick_dates(rng, txn_dates, entry_dates=()):
     first, last = min(txn_dates), max(txn_dates)
+    if entry_dates and rng.random() < 0.08:
+        # a period that ends on or before the very first directive: it selects nothing at all
+        start = min(entry_dates)
+        early = [start, start - datetime.timedelta(days=1), datetime.date(1990, 1, 1)]
+        d = rng.choice(early)
+        return d, rng.choice([x for x in early if x >= d])
     pool = [first - datetime.timedelta(days=40), first, last, last + datetime.timedelta(days=40), last, last + datetime.timedelta(days=1),
             last - datetime.timedelta(days=1), first + datetime.timedelta(days=1)]
     pool += [rng.choice(txn_dates) for _ in range(3)]
@@ -84,7 +90,7 @@ def run_case(ctx, n):
     txns = [e for e in entries if isinstance(e, data.Transaction)]
     if not txns:
         return
-    d, e = pick_dates(rng, [t.date for t in txns])
+    d, e = pick_dates(rng, [t.date for t in txns], [x.date for x in entries])
     use_open = rng.random() < 0.7
     close_kind = rng.choice(['none', 'date', 'date', 'bare'])
     clear = rng.random() < 0.5
